@@ -27,7 +27,11 @@ Open Scope Z_scope.
 (* ---------- values ---------- *)
 (* VNum z: the number with integer value z, |z| <= 2^53 (never -0);
    VDbl bits: any other double by bit pattern (NaN collapsed) *)
-Inductive val := VUndef | VNull | VBool (b : bool) | VNum (z : Z) | VDbl (bits : Z) | VStr (s : list Z).
+(* VGet id p is not a value a script sees: a property whose "value" is VGet id p is an accessor
+   property whose getter logs [8; id] and returns the number p, and which has no setter
+   (such a property is stored with writable = false, so that [[CanPut]] is false, 8.12.4) *)
+Inductive val := VUndef | VNull | VBool (b : bool) | VNum (z : Z) | VDbl (bits : Z) | VStr (s : list Z)
+               | VGet (id p : Z).
 
 Definition val_eqb (a b : val) : bool :=
   match a, b with
@@ -37,6 +41,7 @@ Definition val_eqb (a b : val) : bool :=
   | VNum x, VNum y => x =? y
   | VDbl x, VDbl y => x =? y
   | VStr x, VStr y => zlist_eqb x y
+  | VGet a b, VGet c d => (a =? c) && (b =? d)
   | _, _ => false
   end.
 
@@ -60,6 +65,7 @@ Definition to_boolean (v : val) : bool :=
   | VNum z => negb (z =? 0)
   | VDbl b => negb ((b =? nan_bits) || (b =? nzero_bits))
   | VStr s => match s with [] => false | _ => true end
+  | VGet _ _ => true
   end.
 
 (* ---------- decimal strings ---------- *)
@@ -105,6 +111,7 @@ Definition to_string (v : val) : option (list Z) :=
       else if b =? nzero_bits then Some [48]
       else None
   | VStr s => Some s
+  | VGet _ _ => None
   end.
 
 (* ---------- numeric conversions (9.3, 9.4, 9.6) on the exact view ---------- *)
@@ -129,6 +136,7 @@ Definition to_integer (v : val) : option xint :=
               | [] => Some (XI 0)
               | _ => option_map XI (parse_digits s 0)
               end
+  | VGet _ _ => None
   end.
 
 Definition two32 : Z := 4294967296.
@@ -165,6 +173,7 @@ Definition valid_length (v : val) : option (option Z) :=
                      | None => None
                      end
               end
+  | VGet _ _ => None
   end.
 
 (* relative index clamp used by slice/splice (15.4.4.10 steps 5-8, 15.4.4.12 steps 5-6) *)
@@ -413,7 +422,10 @@ Definition def_array (o : obj) (k : key) (d : desc) (throw : bool) : obj * dres 
 (* what the callback does on its n-th invocation: an optional sloppy-mode
    mutation of the receiver, then throw or return *)
 (* MAppend v: R[R.length] = v (and, on a non-array, R.length = R.length + 1): what push does in sloppy code *)
-Inductive mut := MNone | MPut (k : key) (v : val) | MDel (k : key) | MAppend (v : val).
+(* MPutCur / MDelCur / MGetCur act on the element the callback is being called for:
+   R[i] = v, delete R[i], Object.defineProperty(R, i, {get: counting getter, enumerable: true, configurable: true}) *)
+Inductive mut := MNone | MPut (k : key) (v : val) | MDel (k : key) | MAppend (v : val)
+               | MPutCur (v : val) | MDelCur | MGetCur (id p : Z).
 Record cbstep := mkCb { cb_mut : mut; cb_throw : bool; cb_ret : val }.
 
 (* s_lg: the receiver's length is a counting getter; every [[Get]] of "length" by a method is logged as [9] *)
@@ -469,7 +481,12 @@ Definition put (o : obj) (k : key) (v : val) (throw : bool) : obj * dres :=
        | None => define_own o k (desc_full v) throw
        end.
 
-Definition m_get (k : key) : M val := fun s => Ok (get (s_o s) k) s.
+(* [[Get]]: a counting getter logs its call *)
+Definition m_get (k : key) : M val :=
+  fun s => match get (s_o s) k with
+           | VGet id p => Ok (VNum p) (mkS (s_o s) (s_log s ++ [[VNum 8; VNum id]]) (s_cb s) (s_lg s))
+           | v => Ok v s
+           end.
 Definition m_has (k : key) : M bool := fun s => Ok (has (s_o s) k) s.
 Definition m_put (k : key) (v : val) : M unit := lift_d (fun o => put o k v true) ;;; ret tt.
 Definition m_del (k : key) : M unit := lift_d (fun o => delete o k true) ;;; ret tt.
@@ -482,7 +499,7 @@ Definition m_len_checked (c : bool) : M Z :=
   len <- m_len ;; if c then ret len else throw 6.
 
 (* one invocation of the callback: log (this-code :: arguments), then do what the script says *)
-Definition m_call (entry : list val) : M val :=
+Definition m_call (cur : Z) (entry : list val) : M val :=
   fun s =>
     let s1 := mkS (s_o s) (s_log s ++ [entry]) (s_cb s) (s_lg s) in
     match s_cb s with
@@ -493,6 +510,9 @@ Definition m_call (entry : list val) : M val :=
                  | MNone => (s_o s2, DTrue)
                  | MPut k v => put (s_o s2) k v false
                  | MDel k => delete (s_o s2) k false
+                 | MPutCur v => put (s_o s2) (KI cur) v false
+                 | MDelCur => delete (s_o s2) (KI cur) false
+                 | MGetCur id p => define_own (s_o s2) (KI cur) (mkD (Some (VGet id p)) (Some false) (Some true) (Some true)) true
                  | MAppend v =>
                      match to_uint32 (get (s_o s2) KLen) with
                      | None => (s_o s2, DThrow (-1))
@@ -732,7 +752,7 @@ Definition m_lastindexof (args : list marg) : M rv :=
 (* 15.4.4.16 - 15.4.4.20: visit index k: None if absent, else (value, callback result) *)
 Definition visit (tc : val) (k : Z) : M (option (val * val)) :=
   h <- m_has (KI k) ;;
-  if h then v <- m_get (KI k) ;; r <- m_call [tc; v; VNum k; VBool true] ;; ret (Some (v, r))
+  if h then v <- m_get (KI k) ;; r <- m_call k [tc; v; VNum k; VBool true] ;; ret (Some (v, r))
   else ret None.
 
 Definition m_every (args : list marg) : M rv :=
@@ -781,7 +801,7 @@ Definition m_filter (args : list marg) : M rv :=
 (* 15.4.4.21 / 15.4.4.22 *)
 Definition reduce_step (idx : Z -> val) (k : Z) (acc : val) : M val :=
   h <- m_has (KI k) ;;
-  if h then v <- m_get (KI k) ;; m_call [VNum 0; acc; v; idx k; VBool true] else ret acc.
+  if h then v <- m_get (KI k) ;; m_call k [VNum 0; acc; v; idx k; VBool true] else ret acc.
 
 Definition m_reduce (args : list marg) : M rv :=
   len <- m_len_checked (callable (nth_arg args 0)) ;;
@@ -851,10 +871,12 @@ Fixpoint concat_items (proto : list (Z * prop)) (items : list marg) : option (li
 Definition m_concat (args : list marg) : M rv :=
   fun s =>
     if negb (o_arr (s_o s)) then Ex (-1) s else
-    match read_all (s_o s), concat_items (o_proto (s_o s)) args with
-    | Some a, Some r => Ok (RArr (a ++ r)) s
-    | _, _ => Ex (-1) s
-    end.
+    (n <- cnt (len_of (s_o s)) ;;
+     a <- read_range n 0 ;;
+     fun s' => match concat_items (o_proto (s_o s')) args with
+               | Some r => Ok (RArr (a ++ r)) s'
+               | None => Ex (-1) s'
+               end) s.
 
 (* 15.4.4.2: join is looked up and called with NO arguments; a receiver without a callable join
    (here: every non-array) gets Object.prototype.toString *)
@@ -869,7 +891,7 @@ Definition locale_elem (v : val) : M (list Z) :=
   | VUndef | VNull => ret []
   | VNum z => if Z.abs z <? 1000 then opt_m (to_string v) else throw (-1)
   | VStr _ | VBool _ => opt_m (to_string v)
-  | VDbl _ => throw (-1)
+  | VDbl _ | VGet _ _ => throw (-1)
   end.
 Definition m_tolocalestring (args : list marg) : M rv :=
   len <- m_len ;;
